@@ -186,6 +186,8 @@ class Mapping(Mappable):
         self.from_ = from_ or 0
         self.to = len(self.maps) if to is None else to
         self.mirror = mirror
+        # lists handed in (by slice() or the caller) are shared until first written to
+        self._own_data = not (maps or mirror)
 
     def slice(self, from_: int = 0, to: int | None = None) -> "Mapping":
         if to is None:
@@ -201,6 +203,10 @@ class Mapping(Mappable):
         )
 
     def append_map(self, map: StepMap, mirrors: int | None = None) -> None:
+        if not self._own_data:
+            self.maps = self.maps[:]
+            self.mirror = self.mirror[:] if self.mirror else self.mirror
+            self._own_data = True
         self.maps.append(map)
         self.to = len(self.maps)
         if mirrors is not None:
